@@ -5,6 +5,7 @@ import os
 import struct
 
 from lib import *   # noqa
+import lib
 import gen
 from gen import World
 
@@ -438,14 +439,20 @@ def gen_c05(rng, tier):
 _ck = [1000]
 
 
-def app_op(rng, w, payload, tcp=None, v6=None, sport=None, dport=None):
-    """one `proto::repl` call on a fresh flow"""
+def app_op(rng, w, payload, tcp=None, v6=None, sport=None, dport=None, cookie=None, meta=None):
+    """one `proto::repl` call (on a fresh flow unless `cookie` is given); the contacted address varies
+    between the two handled addresses of the family"""
     tcp = rng.chance(1, 2) if tcp is None else tcp
     v6 = rng.chance(1, 2) if v6 is None else v6
     s, d = w.addrs(v6)
-    _ck[0] += 1
-    return ('A', 'tcp' if tcp else 'udp', s, d, rng.u16() if sport is None else sport, rng.u16() if dport is None else dport,
-            _ck[0] if tcp else None, payload)
+    if rng.chance(1, 3):
+        d = w.my6b if v6 else w.my4b
+    if cookie is None:
+        _ck[0] += 1
+        cookie = _ck[0]
+    op = ('A', 'tcp' if tcp else 'udp', s, d, rng.u16() if sport is None else sport, rng.u16() if dport is None else dport,
+          cookie if tcp else None, payload)
+    return op + (meta,) if meta else op
 
 
 def acase(w, ops, tags=()):
@@ -467,7 +474,50 @@ def gen_appcases(kinds, tcp=None, v6=None, per=400, mutate_ratio=6):
                     pl = gen.mutate(rng, pl)
                     fault = 'mutated'
                 tags['%s:%s' % (kind, fault)] = tags.get('%s:%s' % (kind, fault), 0) + 1
-                ops.append(app_op(rng, w, pl, tcp=t, v6=v6))
+                shape = rng.below(10)
+                if shape == 0 and kind in ('stun', 'ssh', 'smb1', 'smb2', 'ghost') and tcp is not False:
+                    # sticky flow: a valid first request identifies the flow, later segments go straight to that responder
+                    first = {'stun': lambda: gen.gen_stun(rng, None, magic=True) if False else gen.gen_stun_long(rng),
+                             'ssh': lambda: gen.gen_ssh(rng), 'smb1': lambda: gen.gen_smb1(rng), 'smb2': lambda: gen.gen_smb2(rng),
+                             'ghost': lambda: gen.gen_ghost(rng)}[kind]()
+                    _ck[0] += 1
+                    ck = _ck[0]
+                    v = rng.chance(1, 2)
+                    sp, dp = rng.u16(), rng.u16()
+                    ops.append(app_op(rng, w, first, tcp=True, v6=v, sport=sp, dport=dp, cookie=ck))
+                    ops.append(('P', ck))
+                    for _ in range(1 + rng.below(2)):
+                        _, _, pl2 = gen.gen_app(rng, tcp=True, kinds=[kind])
+                        if rng.chance(1, 4):
+                            pl2 = gen.mutate(rng, pl2)
+                        ops.append(app_op(rng, w, pl2, tcp=True, v6=v, sport=sp, dport=dp, cookie=ck, meta={'mode': 'sticky'}))
+                elif shape == 1 and kind == 'http' and fault is None and tcp is not False and len(pl) > 12:
+                    # a complete request cut after the signature: judged on the cumulative stream
+                    sig = pl.index(b' /') + 2 if b' /' in pl else len(pl)
+                    cuts = sorted(set(sig + rng.below(max(1, len(pl) - sig)) for _ in range(1 + rng.below(2))))
+                    _ck[0] += 1
+                    ck = _ck[0]
+                    v = rng.chance(1, 2)
+                    sp, dp = rng.u16(), rng.u16()
+                    pos = 0
+                    for cpos in cuts + [len(pl)]:
+                        if cpos > pos:
+                            ops.append(app_op(rng, w, pl[pos:cpos], tcp=True, v6=v, sport=sp, dport=dp, cookie=ck, meta={'mode': 'stream'}))
+                        pos = cpos
+                elif shape == 2:
+                    # through the real layers 2-4: UDP frame or first TCP data segment, boundary ports included
+                    v = rng.chance(1, 2)
+                    sp = rng.choice([0, 0, 65535, 1, rng.u16()])
+                    dp = rng.choice([0, 65535, rng.u16(), rng.u16()])
+                    if t:
+                        # a fresh 4-tuple for every TCP frame (the protocol id is sticky per flow)
+                        _ck[0] += 1
+                        dp = _ck[0] % 65536
+                        ops.append(('F', w.data_frame(v, sp, dp, rng.u32(), pl)))
+                    else:
+                        ops.append(('F', w.udp_frame(v, sp, dp, pl)))
+                else:
+                    ops.append(app_op(rng, w, pl, tcp=t, v6=v6))
             c = acase(w, ops, ['app'])
             c['dist'] = tags
             cases.append(c)
@@ -557,23 +607,23 @@ PROPS = {
                      'signatures / mutated, one real search_next(+end) call each; application level: payload grammars of every protocol over UDP and '
                      'TCP, IPv4 and IPv6, random ports; non-trivial = payload whose reference identification is some signature (or, for replies, a '
                      'signature-dispatched responder answered)'),
-    'C13': dict(gen=gen_appcases(['http', 'http', 'http', 'raw']), judge='C13', proj=lambda r: r,
+    'C13': dict(gen=gen_appcases(['http', 'http', 'http', 'raw']), judge='C13', judge_mode='app', proj=proj_headers,
                 rule='HTTP request grammar (9 verbs, targets incl. non-UTF-8/CR/NUL, versions, 0..n headers, CRLF/LF) + single faults (unknown verb, '
                      'missing SP, bad version, header without colon, unterminated, lower case, two spaces) + raw mutations, over UDP and TCP, any port; '
                      'non-trivial = request of the strict grammar, or one outside the relaxed language that starts like HTTP'),
-    'C14': dict(gen=gen_appcases(['dns', 'dns', 'dns', 'raw'], tcp=False), judge='C14', proj=lambda r: r,
+    'C14': dict(gen=gen_appcases(['dns', 'dns', 'dns', 'raw'], tcp=False), judge='C14', judge_mode='app', proj=proj_headers,
                 rule='DNS messages (ids, flag words, 0..k questions, label layouts, type/class grids, QR=1, extra sections, truncation) over UDP; '
                      'non-trivial = IN/A query over IPv4 (answer checked by the independent parser) or non-IN/A / truncated message (silence checked)'),
-    'C15': dict(gen=gen_appcases(['stun', 'stun', 'stun', 'raw'], tcp=False), judge='C15', proj=lambda r: r,
+    'C15': dict(gen=gen_appcases(['stun', 'stun', 'stun', 'raw'], tcp=False), judge='C15', judge_mode='app', proj=proj_headers,
                 rule='STUN messages with/without magic cookie, attribute lists well-formed (padded) and with lying TLV lengths, change-request flags, '
                      'all class/method codes; non-trivial = binding request identified by the published signatures, or a message of another class/method'),
-    'C16': dict(gen=gen_appcases(['rpc', 'rpc', 'rpc', 'raw']), judge='C16', proj=lambda r: r,
+    'C16': dict(gen=gen_appcases(['rpc', 'rpc', 'rpc', 'raw']), judge='C16', judge_mode='app', proj=proj_headers,
                 rule='ONC-RPC calls (xid, program 99840..100095, versions, procedures 0..255, credential/verifier lengths) over UDP and record-marked TCP, '
                      'IPv4 and IPv6; non-trivial = call identified by the published signatures'),
-    'C17': dict(gen=gen_appcases(['smb1', 'smb2', 'raw']), judge='C17', proj=lambda r: r,
+    'C17': dict(gen=gen_appcases(['smb1', 'smb2', 'raw']), judge='C17', judge_mode='app', proj=proj_headers,
                 rule='SMB1/SMB2 negotiate and session-setup requests (ids, flags, dialect lists with order/duplicates/unknown, blob lengths, commands, '
                      'reply flag, truncation); non-trivial = well-formed request (response checked) or response-flag/other-command message (silence checked)'),
-    'C18': dict(gen=gen_appcases(['ssh', 'ssh', 'ghost', 'raw']), judge='C18', proj=lambda r: r,
+    'C18': dict(gen=gen_appcases(['ssh', 'ssh', 'ghost', 'raw']), judge='C18', judge_mode='app', proj=proj_headers,
                 rule='SSH identification strings (versions, software/comment with arbitrary bytes incl. lone CR, terminators) and Gh0st magic + tails; '
                      'non-trivial = payload starting with SSH- or the Gh0st magic'),
     'C20': dict(gen=gen_c20, judge='C20', judge_mode='log', proj=lambda r: None,
@@ -639,7 +689,8 @@ def op_from_json(j):
     if j[0] == 'F':
         return ('F', bytes.fromhex(j[1]))
     if j[0] == 'A':
-        return ('A', j[1], bytes.fromhex(j[2]), bytes.fromhex(j[3]), j[4], j[5], j[6], bytes.fromhex(j[7]))
+        op = ('A', j[1], bytes.fromhex(j[2]), bytes.fromhex(j[3]), j[4], j[5], j[6], bytes.fromhex(j[7]))
+        return op + (j[8],) if len(j) > 8 and isinstance(j[8], dict) else op
     if j[0] == 'S':
         return ('S', j[1], j[2], j[3], bytes.fromhex(j[4]))
     return tuple(j)
@@ -713,14 +764,44 @@ def ev_equal(a, b):
     return True
 
 
+def frame_obs_line(frame, reply):
+    """application-interface observation recovered from a request frame and the reply frame (clean UDP / first TCP data frames only)"""
+    q = split_reply(frame)
+    if 'ip' not in q or ('udp' not in q and 'tcp' not in q):
+        return None
+    tcp = 'tcp' in q
+    sp, dp = (q['tcp'][0], q['tcp'][1]) if tcp else (q['udp'][0], q['udp'][1])
+    if reply.startswith('PANIC'):
+        return 'A %s %s %s %d %d - %s PANIC 0' % ('tcp' if tcp else 'udp', ip_model(q['ip'][0]), ip_model(q['ip'][1]), sp, dp, hx(q.get('app') or b''))
+    rp, pa = '-', dp
+    if reply not in ('-', ''):
+        d = split_reply(bytes.fromhex(reply))
+        app = d.get('app')
+        rp = hx(app) if app else '-'
+        pa = d['tcp'][0] if 'tcp' in d else d['udp'][0] if 'udp' in d else dp
+    return 'A %s %s %s %d %d - %s %s %d' % ('tcp' if tcp else 'udp', ip_model(q['ip'][0]), ip_model(q['ip'][1]), sp, dp,
+                                            hx(q.get('app') or b''), rp, pa)
+
+
 def judge_lines(c, mode='frame'):
     """judge input for one case: cfg/reset lines and observation lines"""
     lines = []
     idx = []
     streams = {}
+    sticky = {}
     for i, (o, b) in enumerate(zip(c['ops'], c['impl'])):
+        if o[0] == 'P':
+            parts = (b['r'] or '-').split()
+            if len(parts) >= 2 and parts[1].isdigit():
+                sticky[o[1]] = int(parts[1]) if int(parts[1]) < 9 else 0
+            continue
         if o[0] in ('C', 'X'):
             lines.append(render(o, 'model'))
+        elif o[0] == 'F' and mode in ('app', 'stream'):
+            ln = frame_obs_line(o[1], b['r'] or '-')
+            if ln:
+                lines.append(ln)
+                idx.append(i)
         elif o[0] == 'F':
             r = b['r'] if b['r'] else '-'
             r = r.replace(' ', '_') if r.startswith('PANIC') else r
@@ -741,12 +822,20 @@ def judge_lines(c, mode='frame'):
                 lines.append('A %s %s %s %d %d %s %s PANIC 0' % (o[1], ip_model(o[2]), ip_model(o[3]), o[4], o[5], '-' if o[6] is None else o[6], hx(o[7])))
             else:
                 payload = o[7]
-                if mode == 'stream' and o[1] == 'tcp':
+                meta = o[8] if len(o) > 8 and isinstance(o[8], dict) else {}
+                forced = ''
+                if (mode == 'stream' or meta.get('mode') == 'stream') and o[1] == 'tcp':
                     # the identification is judged on the byte stream of the flow so far, however it was segmented
                     streams[o[6]] = streams.get(o[6], b'') + o[7]
                     payload = streams[o[6]]
-                lines.append('A %s %s %s %d %d %s %s %s %s' % (o[1], ip_model(o[2]), ip_model(o[3]), o[4], o[5], '-' if o[6] is None else o[6],
-                                                             hx(payload), parts[0], parts[1] if len(parts) > 1 else '0'))
+                elif meta.get('mode') == 'sticky':
+                    # later segment of a flow whose sticky protocol id is read from the implementation's table (P op)
+                    pid = sticky.get(o[6])
+                    if pid is None or pid == 0:
+                        continue
+                    forced = ' %d' % pid
+                lines.append('A %s %s %s %d %d %s %s %s %s%s' % (o[1], ip_model(o[2]), ip_model(o[3]), o[4], o[5], '-' if o[6] is None else o[6],
+                                                               hx(payload), parts[0], parts[1] if len(parts) > 1 else '0', forced))
             idx.append(i)
         elif o[0] == 'S' and mode in ('frame', 'stream'):
             parts = (b['r'] or 'none 0 0').split()
@@ -1018,12 +1107,14 @@ def gen_streams(rng, tier):
     streams = []
     n = 8 if tier == 'quick' else 40
     for _ in range(n):
-        streams.append(('http', gen.gen_http(rng, rng.choice([None, None, None, 'nocolon', 'version', 'unterminated']))))
+        streams.append(('http', gen.gen_http(rng, rng.choice([None, None, None, None, 'nocolon', 'version', 'unterminated', 'folded']))))
         streams.append(('rpc', gen.gen_rpc(rng, True, None)))
     streams.append(('http', b'GET / HTTP/1.1\r\n\r\n'))
     streams.append(('http', b'OPTIONS /x HTTP/1.0\nHost: a\n\n'))
     streams.append(('rpc', bytes.fromhex('80000028') + bytes.fromhex('112233440000000000000002000186a0000000020000000300000000000000000000000000000000')))
-    return [(k, s[:70]) for k, s in streams if len(s) >= 2]
+    streams.append(('http', b'GET /a HTTP/1.1\r\nAccept: text/html,\r\n application/xml\r\nHost: a\r\n\r\n'))
+    streams.append(('http', b'GET / HTTP/1.1\r\nA: b\r\n\r\n'))
+    return [(k, s[:110]) for k, s in streams if len(s) >= 2]
 
 
 def explore_c11(prop, pd, tier, rng, corpus_cases):
@@ -1174,11 +1265,32 @@ def explore_c19(prop, pd, tier, rng, corpus_cases):
                 ops.append(('F', w.f4(17, udp(rng.u16(), dport, pl))))       # checksum field 0: no checksum
                 variants.append(len(ops) - 1)
         fgroups.append((kind, fault, pl, variants))
+    if w.key == (0, 0) or True:
+        # corpus: under key (0,0) the flow 10.0.180.59:61397 -> 198.51.100.7:22 has cookie 0xFFFFFFFF, so its first data
+        # segment acknowledges 0 (32-bit wrap); compared with the neighbouring source port
+        try:
+            k = case_from_json(json.load(open(os.path.join(CORPUS, 'cookie-ffffffff.json'))), 'cookie-ffffffff.json')
+            s_, d_ = ip4('10.0.180.59'), ip4('198.51.100.7')
+            wk = World(rng, selfmode=False, denymode=False, key=(0, 0))
+            wk.mac, wk.cl_mac = MAC_ME, MAC_CL
+            variants = []
+            kops = [('C', wk.cfg()), ('X',)]
+            for sp in (61397, 61398, 61396):
+                ckk = cookie((0, 0), s_, d_, sp, 22)
+                kops.append(('F', eth(MAC_ME, MAC_CL, 0x0800, ipv4(s_, d_, 6, lib.tcp(sp, 22, 5, (ckk + 1) & 0xffffffff, 0x18, b'SSH-2.0-x\r\n', src=s_, dst=d_)))))
+            kcase = {'ops': kops, 'tags': ['cookie-ffffffff']}
+        except FileNotFoundError:
+            kcase = None
     c = {'ops': ops, 'tags': ['ports-versions']}
-    run_cases([c])
+    run_cases([c] + ([kcase] if kcase else []))
     violations, disagreements, samples = [], [], []
     nontrivial = 0
     dist = {}
+    if kcase:
+        outs = [proj_headers(bytes.fromhex(b['r']))[-1] if outcome(b['r']) == 'reply' else outcome(b['r']) for b in kcase['impl'][2:]]
+        if len(set(outs)) != 1:
+            violations.append({'clause': 'answer depends on the port pair: the flow whose SYN cookie is 0xFFFFFFFF (first data acknowledges 0) is treated differently',
+                               'ops': [op_to_json(x) for x in kcase['ops']], 'tags': ['cookie-ffffffff'], 'outs': [str(o) for o in outs]})
     for kind, fault, pl, variants in fgroups:
         outs = []
         for i in variants:
@@ -1372,6 +1484,25 @@ def explore_c12(prop, pd, tier, rng, corpus_cases):
         frames.append(('tcp-data', w.data_frame(v6, sp, dp, 7, b'GET / HT')))
         frames.append(('tcp-reply-flags-with-data', w.data_frame(v6, sp, dp, rng.u32(), pl, flags=fl, ackdelta=rng.choice([1, 5]))))
     l2case = case(w, [f for _, f in frames], ['reply-typed-l2l4'])
+    # reply-typed messages on a TCP flow already identified as that protocol (sticky id): STUN non-requests on a STUN
+    # flow, reply-flagged SMB on an SMB flow — the protocol's own responder sees them directly
+    sops = [('C', w.cfg()), ('X',)]
+    sticky_checks = []
+    for _ in range(n):
+        kind = rng.choice(['stun', 'smb1', 'smb2'])
+        _ck[0] += 1
+        ck = _ck[0]
+        first = {'stun': gen.gen_stun_long, 'smb1': gen.gen_smb1, 'smb2': gen.gen_smb2}[kind](rng)
+        sops.append(app_op(rng, w, first, tcp=True, v6=False, sport=4000, dport=5000, cookie=ck))
+        if kind == 'stun':
+            ty = rng.choice([b'\x00\x11', b'\x01\x01', b'\x01\x11'])
+            attrs = rng.choice([b'', gen.stun_attr(1, b'\x00\x01' + rng.bytes(6)), gen.stun_attr(0x8022, rng.bytes(4))])
+            msg = ty + struct.pack('>H', len(attrs)) + rng.choice([bytes(16), b'\x21\x12\xa4\x42' + rng.bytes(12)]) + attrs
+        else:
+            msg = (gen.gen_smb1 if kind == 'smb1' else gen.gen_smb2)(rng, 'replyflag')
+        sops.append(app_op(rng, w, msg, tcp=True, v6=False, sport=4000, dport=5000, cookie=ck))
+        sticky_checks.append((len(sops) - 1, 'stun' if kind == 'stun' else 'smb', kind))
+    scase = {'ops': sops, 'tags': ['reply-typed-on-identified-flow']}
     # --- application reply-typed messages: own replies re-addressed, and generated ones; chains
     seeds = []
     for _ in range(n * 4):
@@ -1436,13 +1567,19 @@ def explore_c12(prop, pd, tier, rng, corpus_cases):
         cur = nxt
         if not cur:
             break
+    run_cases([scase])
+    for i, cls, kind in sticky_checks:
+        parts = scase['impl'][i]['r'].split()
+        if parts and parts[0] not in ('-', 'PANIC') and reflect_class(bytes.fromhex(parts[0])) == cls:
+            violations.append({'clause': '%s message marked as a reply was answered by the %s responder on a flow identified as %s' % (cls, cls, kind),
+                               'ops': [op_to_json(x) for x in (scase['ops'][:2] + scase['ops'][i - 1:i + 1])], 'tags': [kind, 'sticky']})
     run_cases([l2case])
     for (name, f), b in zip(frames, l2case['impl'][2:]):
         if name == 'tcp-data':
             continue
         if outcome(b['r']) == 'reply':
             violations.append({'clause': '%s elicited a reply' % name, 'ops': [op_to_json(l2case['ops'][0]), ['X'], op_to_json(('F', f))], 'tags': [name]})
-    compared, exact = _corr(chain_cases + [l2case], lambda o, b: proj_a(b['r']) if o[0] == 'A' else outcome(b['r']), disagreements)
+    compared, exact = _corr(chain_cases + [l2case, scase], lambda o, b: proj_a(b['r']) if o[0] == 'A' else outcome(b['r']), disagreements)
     dist = {'l2l4_frames': len(frames), 'generated_app_replies': len(fixed), 'own_replies_reflected': len(own)}
     return _result(len(frames) + len(msgs), len(frames) + len(msgs), samples, compared, exact, disagreements, violations, pd['rule'], dist)
 
